@@ -9,6 +9,7 @@ import (
 	"os/exec"
 	"reflect"
 	"strings"
+	"time"
 
 	spg "go.1password.io/spg"
 
@@ -62,6 +63,8 @@ type c15Op struct {
 	Script []uint32 `json:"script,omitempty"`
 	Trials int      `json:"max_trials"`
 	Fail   float64  `json:"max_fail_rate"`
+	// StallAt > 0: the source blocks for 300 ms before answering that read (never sent to the fresh process)
+	StallAt int `json:"-"`
 }
 
 // c15Exec performs the call on the given live objects and renders the result.
@@ -84,6 +87,9 @@ func c15Exec(op c15Op, cr *spg.CharRecipe, wr *spg.WLRecipe, wl *spg.WordList, s
 	var t *tape.Tape
 	if op.Script != nil {
 		t = &tape.Tape{Script: op.Script, AutoExtend: true, MaxDraws: 3000}
+		if op.StallAt > 0 {
+			t.StallAt, t.Stall = op.StallAt, 300*time.Millisecond
+		}
 	}
 	switch op.Kind {
 	case "char":
@@ -274,6 +280,7 @@ type c15Pool struct {
 	shared  []string // RequireSets backing array shared by two character recipes
 	lists   []*spg.WordList
 	inputs  [][]string
+	origs   [][]string // what each input slice held when its list was built (the caller may scribble over inputs later)
 	sepRecs []spg.CharRecipe
 }
 
@@ -313,7 +320,11 @@ func (p *c15Pool) snapshot() c15Snap {
 	return s
 }
 
+// c15StallBudget: how many calls of the current case may still be repeated with a blocking source (each costs 300 ms)
+var c15StallBudget int
+
 func c15Case(c *Ctx) {
+	c15StallBudget = 1
 	hist, nops := c15Counts(c.Tier)
 	for h := 0; h < 4 && c.Case*4+h < hist; h++ {
 		c15History(c, gen.New(c.Seed, "c15", c.Case, h), nops, h == 0 && c.Case < 3)
@@ -388,6 +399,7 @@ func c15History(c *Ctx, r *gen.R, nops int, sample bool) {
 		}
 		pool.lists = append(pool.lists, wl)
 		pool.inputs = append(pool.inputs, backing)
+		pool.origs = append(pool.origs, append([]string(nil), backing...))
 	}
 	if len(pool.lists) == 0 {
 		return
@@ -405,7 +417,7 @@ func c15History(c *Ctx, r *gen.R, nops int, sample bool) {
 	nwl := r.Range(1, 2)
 	for i := 0; i < nwl; i++ {
 		li := r.Intn(len(pool.lists))
-		m := WLCase{Words: append([]string(nil), pool.inputs[li]...), Length: r.Range(1, 5), Scheme: schemes[r.Intn(5)], SepKind: "char", SepChar: []string{"", "-", "語"}[r.Intn(3)]}
+		m := WLCase{Words: append([]string(nil), pool.origs[li]...), Length: r.Range(1, 5), Scheme: schemes[r.Intn(5)], SepKind: "char", SepChar: []string{"", "-", "語"}[r.Intn(3)]}
 		rec := spg.NewWLRecipe(m.Length, pool.lists[li])
 		rec.Capitalize = spg.CapScheme(m.Scheme)
 		rec.SeparatorChar = m.SepChar
@@ -428,6 +440,7 @@ func c15History(c *Ctx, r *gen.R, nops int, sample bool) {
 		return s
 	}
 	prevCalls := 0
+	stalls := 0
 	for n := 0; n < nops; n++ {
 		// ---- caller-side update?
 		if r.Chance(1, 4) {
@@ -486,10 +499,22 @@ func c15History(c *Ctx, r *gen.R, nops int, sample bool) {
 					nr := spg.NewWLRecipe(w.rec.Length, pool.lists[li])
 					nr.Capitalize, nr.SeparatorChar, nr.SeparatorFunc = w.rec.Capitalize, w.rec.SeparatorChar, w.rec.SeparatorFunc
 					w.rec, w.list, w.input = nr, pool.lists[li], pool.inputs[li]
-					w.model.Words = append([]string(nil), pool.inputs[li]...)
+					w.model.Words = append([]string(nil), pool.origs[li]...)
 				}
 				c.Count("field_updates", 1)
 			}
+		}
+		// ---- the caller reuses the slice it once built a list from (the list is documented to be its own copy)
+		if r.Chance(1, 10) {
+			li := r.Intn(len(pool.inputs))
+			in := pool.inputs[li]
+			in[r.Intn(len(in))] = []string{"scribble", "Zulu", "0", "apple"}[r.Intn(4)]
+			if r.Chance(1, 3) {
+				for j := range in {
+					in[j] = fmt.Sprintf("reused%d", j)
+				}
+			}
+			c.Count("caller_slice_reuses", 1)
 		}
 		// ---- the process environment changes now and then (the fresh process below starts from another one)
 		if r.Chance(1, 8) {
@@ -559,6 +584,31 @@ func c15History(c *Ctx, r *gen.R, nops int, sample bool) {
 		after := pool.snapshot()
 		c.Exec(1)
 		c.Count("calls_"+op.Call, 1)
+		// the same call once more, with a source that blocks for a while at one of its reads: time is not an input
+		if op.Script != nil && (op.Call == "Generate" || op.Call == "call") && stalls < 1 && c15StallBudget > 0 && r.Chance(1, 12) && !strings.HasPrefix(res, "HARNESS-OBSERVED-PANIC") {
+			stalls++
+			c15StallBudget--
+			slow := op
+			slow.StallAt = r.Range(1, 3)
+			res2 := ""
+			func() {
+				defer func() {
+					if rr := recover(); rr != nil {
+						tape.Restore()
+						res2 = fmt.Sprintf("HARNESS-OBSERVED-PANIC:%v", rr)
+					}
+				}()
+				res2 = c15Exec(slow, cr, wr, wl, sf)
+			}()
+			c.Exec(1)
+			c.Count("calls_repeated_with_a_blocking_source", 1)
+			if res2 != res {
+				ob, _ := json.Marshal(op)
+				c.Violate("result-depends-on-elapsed-time", fmt.Sprintf("op %d of a history (%s.%s): result %s; the same call on the same stream with the source blocking 300 ms at read %d gives %s. op=%s", n, op.Kind, op.Call, abbreviate(res), slow.StallAt, abbreviate(res2), ob),
+					map[string]interface{}{"op": op, "result": res, "with_blocking_source": res2, "stalled_read": slow.StallAt})
+				return
+			}
+		}
 		if !reflect.DeepEqual(before, after) {
 			what := "a public field, caller slice or word list"
 			switch {
